@@ -54,6 +54,9 @@ def fixed_requests():
     for ps in (["footnotes"], ["footnotes", "table"], ["table", "footnotes", "url"], ["footnotes", "footnotes"]):
         req("a[^1] b[^2] a[^1]\n\n[^1]: one\n[^2]: two\n", "stdin", ps)
         req("a[^1]\n\n[^1]: one\n", "-f", ps, output=True)
+    for rn in ("markdown", "rst", "html", None):
+        req("# notes\n\n- a *b*\n- c\n\ntext\n", "-f", ["speedup"] if rn in ("rst", "markdown") else None, rn, output=True, inplace=True)
+        req("# notes\n\ntext\n", "-f", ["speedup"] if rn in ("rst", "markdown") else None, rn, output=True, inplace=True, long_flags=True, order=0.1)
     for rn in ("rst", "markdown", "html", None):
         for ch in ("-m", "-f", "stdin"):
             req("text ![alt](i.png) more ![b](j.png 't')\n\n![alone](k.png)\n", ch, ["speedup"] if rn in ("rst", "markdown") else None, rn)
@@ -119,7 +122,8 @@ def argv_of(req, r, tmp):
         groups.append(["--renderer" if L else "-r", req["renderer"]])
     out_path = None
     if req["output"]:
-        out_path = os.path.join(tmp, "out%d.txt" % req["id"])
+        # (a file may be converted in place: the output file is the input file)
+        out_path = src_path if (req.get("inplace") and src_path) else os.path.join(tmp, "out%d.txt" % req["id"])
         groups.append(["--output" if L else "-o", out_path])
     rr = __import__("random").Random(req["order"])
     # keep the two -p groups in order (extend appends), shuffle the rest
